@@ -19,9 +19,11 @@ def main():
     out = {'job': job, 'ok': False}
     try:
         mod = importlib.import_module('pv.props.' + job['prop'].lower())
+        repo = os.environ.get('VERIF_REPO', '/repo')
+        from pv import linecov
+        linecov.start(os.path.join(repo, 'pyplate'))
         import pyplate
         import pyplate.pyplate as pp
-        repo = os.environ.get('VERIF_REPO', '/repo')
         src = os.path.realpath(pp.__file__)
         if not src.startswith(os.path.realpath(repo) + os.sep):
             raise RuntimeError(f'pyplate imported from {src}, expected under {repo}')
@@ -51,6 +53,7 @@ def main():
             'bugs': M.bugs[:5],
             'max_ratio': dict(M.max_ratio),
             'extra': extra,
+            'lines': linecov.collected(),
         })
     except BaseException as e:   # noqa
         out['error'] = traceback.format_exc()
